@@ -285,7 +285,33 @@ def effect_of(full: str, call: ast.Call) -> Optional[tuple[str, str]]:
 
 
 # --------------------------------------------------------------------------- T2 content-triggered exceptions
-def lib_raises(full: str, call: ast.Call, facts: TypeFacts) -> list[str]:
+def _split_index_guarded(sub: ast.Subscript) -> bool:
+    """`X.split(SEP, k)[1]` under a test `SEP in X` - in an enclosing `if`, or in the `if` of the comprehension that
+    contains it - always has a second piece."""
+    from .model import parent_of
+    call = sub.value
+    if call.func.attr not in ("split", "rsplit") or not call.args or sub.slice.value != 1:
+        return False
+    want = {f"{ast.unparse(call.args[0])} in {ast.unparse(call.func.value)}"}
+    cur = sub
+    par = parent_of(cur)
+    while par is not None:
+        if isinstance(par, (ast.ListComp, ast.SetComp, ast.GeneratorExp, ast.DictComp)):
+            for g in par.generators:
+                if any(ast.unparse(c) in want for c in g.ifs):
+                    return True
+        if isinstance(par, ast.If) and ast.unparse(par.test) in want and cur in par.body:
+            return True
+        if isinstance(par, ast.IfExp) and ast.unparse(par.test) in want and cur is par.body:
+            return True
+        if isinstance(par, (ast.FunctionDef, ast.AsyncFunctionDef)):
+            break
+        cur = par
+        par = parent_of(cur)
+    return False
+
+
+def lib_raises(full: str, call: ast.Call, facts: TypeFacts, raw_param: Optional[set] = None) -> list[str]:
     """Exceptions a library call raises because of input *content* (table T2)."""
     out: list[str] = []
     text = ast.unparse(call.func)
@@ -314,8 +340,15 @@ def lib_raises(full: str, call: ast.Call, facts: TypeFacts) -> list[str]:
             and ast.unparse(arg.args[0]) in ("str", "repr", "int", "float", "len")
         if not any(k.arg == "key" for k in call.keywords) and re.search(r"\bAny\b", t) and not mapped_to_str:
             out.append("builtins.TypeError")
+    # building a set (or dict keys) from values whose element type is not established hashes arbitrary objects
+    # (only where the argument is a RAW parsed value: a parameter of an attrs converter, see Escape.raw_value_params)
+    if full.split("|")[0] in ("builtins.set", "builtins.frozenset") and call.args and raw_param \
+            and isinstance(call.args[0], ast.Name) and call.args[0].id in raw_param:
+        out.append("builtins.TypeError")
     if re.fullmatch(r"_LICENSING\.parse", text):
-        out += ["license_expression.ExpressionError", "boolean.boolean.ParseError"]
+        # ExpressionError / ParseError are documented; IndexError is what license-expression 30.x raises for "()"
+        # (an empty parenthesis pair) - observed by calling the library function directly
+        out += ["license_expression.ExpressionError", "boolean.boolean.ParseError", "builtins.IndexError"]
     return sorted(set(out))
 
 
@@ -395,6 +428,36 @@ class Escape:
         return handler in self.mro(exc)
 
     # ---- per function
+    def raw_value_params(self) -> dict[str, set]:
+        """function -> parameters that receive RAW parsed configuration values: the first parameter of every function
+        named as `converter=` of an attrs field (converters run before the validators), and of the functions those pass
+        their parameter on to unchanged (`value = _str_to_set(value)`)."""
+        if getattr(self, "_raw", None) is not None:
+            return self._raw
+        names = set()
+        for mod in self.repo.modules.values():
+            for c in ast.walk(mod.tree):
+                if isinstance(c, ast.Call) and ast.unparse(c.func).split(".")[-1] in ("field", "ib", "attrib"):
+                    for kw in c.keywords:
+                        if kw.arg == "converter" and isinstance(kw.value, ast.Name):
+                            names.add(kw.value.id)
+        raw: dict[str, set] = {}
+        work = [q for q in self.repo.functions if q.rsplit(".", 1)[-1] in names]
+        while work:
+            q = work.pop()
+            fn = self.repo.functions[q]
+            if q in raw or not fn.args.args:
+                continue
+            p = fn.args.args[0].arg
+            raw[q] = {p}
+            for c in ast.walk(fn):
+                if isinstance(c, ast.Call) and isinstance(c.func, ast.Name) and c.args and isinstance(c.args[0], ast.Name) and c.args[0].id == p:
+                    for q2 in self.repo.functions:
+                        if q2.rsplit(".", 1)[-1] == c.func.id and q2.rsplit(".", 1)[0] == q.rsplit(".", 1)[0]:
+                            work.append(q2)
+        self._raw = raw
+        return raw
+
     def _function(self, q: str, fn: ast.FunctionDef) -> dict[str, tuple]:
         mod = self.repo.module_of(fn)
         edges_by_node: dict[int, list[str]] = {}
@@ -405,13 +468,21 @@ class Escape:
         def expr_raises(node: ast.AST) -> dict[str, tuple]:
             out: dict[str, tuple] = {}
             for n in walk_no_nested(node) if not isinstance(node, (ast.FunctionDef,)) else []:
+                # T2: a constant index into the pieces of a split text: the text decides how many pieces there are
+                if isinstance(n, ast.Subscript) and isinstance(n.slice, ast.Constant) and isinstance(n.slice.value, int) \
+                        and n.slice.value not in (0, -1) and isinstance(n.value, ast.Call) and isinstance(n.value.func, ast.Attribute) \
+                        and n.value.func.attr in ("split", "splitlines", "rsplit", "partition") and n.value.func.attr != "partition":
+                    if _split_index_guarded(n):
+                        continue
+                    origin = f"{q} | lib | {ast.unparse(n)[:90]}"
+                    out.setdefault(("builtins.IndexError", origin), ("lib", "subscript", self.repo.loc(n), ast.unparse(n)[:80]))
                 for tgt in edges_by_node.get(id(n), []):
                     if tgt == q:
                         continue
                     for key in self.esc.get(tgt, {}):
                         out.setdefault(key, ("via", tgt, self.repo.loc(n)))
                 if isinstance(n, ast.Call) and id(n) in ext_by_node:
-                    for exc in lib_raises(ext_by_node[id(n)], n, self.facts):
+                    for exc in lib_raises(ext_by_node[id(n)], n, self.facts, self.raw_value_params().get(q)):
                         origin = f"{q} | lib | {ast.unparse(n)[:90]}"
                         out.setdefault((exc, origin), ("lib", ext_by_node[id(n)], self.repo.loc(n), ast.unparse(n)[:80]))
             return out
